@@ -26,6 +26,12 @@ def throwers(fns):
 _PV = {}
 
 
+def _throws(fn):
+    hit = [False]
+    walk(fn.get("body"), lambda x: hit.__setitem__(0, True) if x.get("k") == "Throw" else None)
+    return hit[0]
+
+
 def is_pure_validator(fn, by_pat, depth=0):
     """the body consists only of `if (cond) throw` guards, calls of other pure validators / check_* functions, declarations of
     locals and a plain return: such a helper is equivalent to its guards written at the call site, whatever it is called"""
@@ -45,6 +51,8 @@ def is_pure_validator(fn, by_pat, depth=0):
             cal = by_pat.get(c.get("cpat"))
             if cal is not None and is_pure_validator(cal, by_pat, depth + 1):
                 n_guard += 1
+            elif cal is not None and (c.get("cname") or "").lower().startswith(("check", "validate")) and _throws(cal):
+                n_guard += 1     # a named check that is more than a list of guards: stays a `call:` item when seen through
             else:
                 return False
         elif k == "Decl":
